@@ -12,6 +12,7 @@ package reassembly
 //@   props C09
 //@   requires isSeq(s) && isSeq(t)
 //@   ensures -1073741824 < sdiff32(s, t) && sdiff32(s, t) < 1073741824 ==> result == sdiff32(s, t)
+//@   ensures result == ((s > 3221225472 && t < 1073741823) ? t + 4294967296 - s : ((t > 3221225472 && s < 1073741823) ? t - s - 4294967296 : t - s))
 //@   modifies nothing
 
 //@ func (s Sequence) Add(t int) Sequence
@@ -41,13 +42,19 @@ func verifLemmaSeq(s, t Sequence, n int) (antisym, zero, shift bool) {
 //@   ensures result == 0 || (old(half.saved.seq) + result) % 4294967296 == firstSeq
 //@   loop 1: invariant (old(half.saved.seq) + s) % 4294967296 != firstSeq
 
+// Added: payload bound (case 6 slices `-diffStart+len(bytes)`; end = start+len wraps for >= 2^32 bytes),
+// invariant len(bytes) <= len(a.cacheLP.bytes). With the exact result clause of
+// Difference the three slice expressions (cases 2, 4, 6) are proved for every position in the sequence space, without
+// any window assumption. Both call sites (handleBytes) are checked against these clauses.
 // checkOverlap, case 6 (new bytes lie inside a queued page): byte k of the packet (sequence start+k) replaces
 // byte (start - cur.seq) + k of that page. Page sequence numbers are in range (assumed heap invariant).
 //@ func (a *Assembler) checkOverlap(half *halfconnection, queue bool, ac AssemblerContext)
 //@   props C09
 //@   requires forall r int :: isSeq(heap(page.seq, r))
 //@   requires isSeq(a.cacheLP.seq)
+//@   requires len(a.cacheLP.bytes) < 1073741824
 //@   loop 0: invariant forall r int :: isSeq(heap(page.seq, r))
+//@   loop 0: invariant len(bytes) <= len(a.cacheLP.bytes)
 //@   at copy 0: assert arg0.arr == cur.bytes.arr
 //@   at copy 0: assert -1073741824 < sdiff32(cur.seq, start) && sdiff32(cur.seq, start) < 1073741824 ==> arg0.off == cur.bytes.off + sdiff32(cur.seq, start)
 
@@ -86,3 +93,26 @@ func verifLemmaSeq(s, t Sequence, n int) (antisym, zero, shift bool) {
 //@ func (a *Assembler) flushClose(conn *connection, half *halfconnection, t time.Time, tc time.Time) (bool, bool)
 //@   props C11
 //@   loop 0: invariant !half.closed
+
+// seqdiff(s,t): the exact value computed by Sequence.Difference (piecewise, quarter-window adjustment).
+//@ spec seqdiff(s int, t int) int = (s > 3221225472 && t < 1073741823) ? t + 4294967296 - s : ((t > 3221225472 && s < 1073741823) ? t - s - 4294967296 : t - s)
+
+// overlapExisting is entered only for a segment that starts at or before the next expected byte (the caller has
+// tested half.nextSeq.Difference(seq) <= 0; Difference is exactly antisymmetric), so the trimmed prefix is in range.
+//@ func (a *Assembler) overlapExisting(half *halfconnection, start Sequence, end Sequence, bytes []byte) ([]byte, Sequence)
+//@   props C09
+//@   requires isSeq(start) && (half.nextSeq == -1 || isSeq(half.nextSeq))
+//@   requires half.nextSeq != -1 ==> seqdiff(start, half.nextSeq) >= 0
+//@   ensures len(result0) <= len(bytes) && isSeq(result1)
+
+// handleBytes is brought into scope so that checkOverlap / overlapExisting preconditions are checked at their
+// call sites. Its own preconditions are facts of its only caller AssembleWithContext (an exported entry point that is
+// NOT in the scope of C09, so they are not checked there): a.pc set by NewAssembler; seq is
+// Sequence(t.Seq) (+1); the queue flag is cleared only after half.nextSeq.Difference(seq) <= 0 or when nextSeq was
+// just set to seq; the heap invariant on page.seq; and len(t.Payload) < 2^30, which is an assumption on the input.
+//@ func (a *Assembler) handleBytes(bytes []byte, seq Sequence, half *halfconnection, start bool, end bool, action assemblerAction, ac AssemblerContext) assemblerAction
+//@   props C09
+//@   requires a.pc != nil
+//@   requires isSeq(seq) && len(bytes) < 1073741824
+//@   requires forall r int :: isSeq(heap(page.seq, r))
+//@   requires !action.queue ==> (half.nextSeq == -1 || (isSeq(half.nextSeq) && seqdiff(seq, half.nextSeq) >= 0))
